@@ -460,8 +460,9 @@ pub fn run(tier: Tier, replay: Option<&str>) {
     };
 
     // (a)+(c1) append-a-byte tree over all seven targets
-    let depth_frame = 3;
-    let depth_sets = if th { 3 } else { 2 };
+    let deep = crate::ctx::deep();
+    let depth_frame = if deep { 4 } else { 3 };
+    let depth_sets = if deep { 4 } else if th { 3 } else { 2 };
     let targets: Vec<&str> = std::iter::once("frame").chain(SETS.iter().copied()).collect();
     let jobs: Vec<(&str, u8)> = targets.iter().flat_map(|t| (0..=255u8).map(move |b| (*t, b))).collect();
     jobs.par_iter().for_each(|&(t, b0)| {
@@ -481,6 +482,12 @@ pub fn run(tier: Tier, replay: Option<&str>) {
                     for b2 in 0..=255u8 {
                         go(t, &[b0, b1, b2]);
                         n += 1;
+                        if depth >= 4 {
+                            for b3 in 0..=255u8 {
+                                go(t, &[b0, b1, b2, b3]);
+                                n += 1;
+                            }
+                        }
                     }
                 }
             }
